@@ -17,13 +17,14 @@ import (
 
 // ProbeFields / ProbeConds: enumeration alphabets for the `exec` probe schema.
 var ProbeConds = map[string][]string{
-	"T":     {"", "T", "Node", "Named"},
-	"S":     {"", "S", "Node"},
-	"Node":  {"", "T", "S", "Named", "Deep"},
-	"Named": {"", "T", "Node"},
-	"Deep":  {"", "T", "Node"},
-	"U":     {"T", "S", "Node"},
-	"Query": {""},
+	"T":      {"", "T", "Node", "Named"},
+	"S":      {"", "S", "Node"},
+	"Node":   {"", "T", "S", "Named", "Deep"},
+	"Named":  {"", "T", "Node"},
+	"Deep":   {"", "T", "Node"},
+	"U":      {"T", "S", "Node"},
+	"Peered": {"", "T", "S", "Node"},
+	"Query":  {""},
 }
 
 func fieldsFor(level string) map[string][]string {
@@ -41,9 +42,10 @@ func fieldsFor(level string) map[string][]string {
 		}
 	default: // wide
 		return map[string][]string{
-			"Query":    {"t", "tReq", "ts", "node", "u", "str", "strReq"},
+			"Query":    {"t", "tReq", "ts", "peers", "node", "u", "str", "strReq"},
 			"Mutation": {"m1", "m2", "m3"},
-			"T":        {"id", "name", "req", "plain", "plainReq", "kid", "kidReq", "kids", "kidsNN", "kidsReq", "peer", "peerReq", "u", "guarded", "ints", "__typename"},
+			"T":        {"id", "name", "req", "plain", "plainReq", "kid", "kidReq", "kids", "kidsNN", "kidsReq", "peer", "peerReq", "u", "guarded", "ints", "times", "optStrs", "__typename"},
+			"Peered":   {"id", "peer", "__typename"},
 			"S":        {"id", "title", "peer", "__typename"},
 			"Node":     {"id", "__typename"},
 			"Named":    {"id", "name", "__typename"},
@@ -61,6 +63,9 @@ func alternatives(p Position, withPanic, thorough bool) []string {
 	var out []string
 	switch p.Kind {
 	case "element":
+		if p.Abstract {
+			return []string{"null", "alt"}
+		}
 		return []string{"null"}
 	case "unmarshal", "interceptor":
 		out = []string{"error"}
